@@ -18,11 +18,35 @@ fn line_ok(l: &str) -> bool {
     !l.contains('\n') && !l.ends_with('\r')
 }
 
+/// the unwrapping is a function of its input: the same call after calls that ended in each of the
+/// errors (and after a successful one) must give the same answer (after seeded change C19-r6m1: a
+/// per-thread scratch buffer left dirty by the error paths)
+fn strip_twice(s: &str) -> (Result<(String, Option<String>), Error>, Option<String>) {
+    let r0 = strip_pgp_signature(s);
+    for poison in [
+        "-----BEGIN PGP SIGNED MESSAGE-----\nHash: SHA256\n\nstale payload\n",
+        "-----BEGIN PGP SIGNED MESSAGE-----\n\np\n-----BEGIN PGP SIGNATURE-----\nstale signature\n",
+        "-----BEGIN PGP SIGNED MESSAGE-----\n\np\n-----BEGIN PGP SIGNATURE-----\ns\n-----END PGP SIGNATURE-----\njunk\n",
+        "-----BEGIN PGP SIGNED MESSAGE-----\nHash: x\n",
+    ] {
+        let _ = strip_pgp_signature(poison);
+        let r = strip_pgp_signature(s);
+        if r != r0 {
+            let why = format!("the answer depends on earlier calls: {} on the first call, {} after an unrelated call", show(&r0), show(&r));
+            return (r0, Some(why));
+        }
+    }
+    (r0, None)
+}
+
 pub fn handle(op: &str, a: &[&str]) -> Option<Resp> {
     match (op, a) {
         ("pgp.strip", [t]) => {
             let s = ds(t)?;
-            let r = strip_pgp_signature(&s);
+            let (r, hist) = strip_twice(&s);
+            if hist.is_some() {
+                return Some(Resp::with(show(&r), hist));
+            }
             // oracle clauses that need no structure: a result without signature is the input;
             let fail = match &r {
                 Ok((p, None)) if p != &s => Some("passthrough altered the text".to_string()),
@@ -55,7 +79,10 @@ pub fn handle(op: &str, a: &[&str]) -> Option<Resp> {
             }
             all.extend(extra.iter().cloned());
             let text: String = all.iter().map(|l| format!("{}\n", l)).collect();
-            let r = strip_pgp_signature(&text);
+            let (r, hist) = strip_twice(&text);
+            if hist.is_some() {
+                return Some(Resp::with(format!("{} {}", es(&text), show(&r)), hist));
+            }
             // the property's oracle, applicable when the side conditions hold
             let side = hs.iter().all(|h| line_ok(h) && !h.is_empty())
                 // payload lines "that need no dash-escaping (none begins with '-')": the property
